@@ -189,7 +189,14 @@ LeafOutcome(f, es) ==
               [] f.kind = "message" -> "builds"
 
 \* message-level checks after the properties (findPSMOptions)
-MsgOutcome(m) == IF m.opt = "psm" THEN "errors" ELSE "builds"         \* names M0.. have no Keys/State/Event/Data suffix
+\* isOneofWrapper: by option, else a single real oneof "type" without a j5 option that holds every field, all of message kind
+IsWrapper(m) ==
+    IF m.opt \in {"wrapper_deprecated", "type_oneof"} THEN TRUE
+    ELSE IF m.opt \in {"type_object", "type_object_any"} THEN FALSE
+    ELSE /\ Len(m.oneofs) = 1 /\ m.oneofs[1].name = "type" /\ m.oneofs[1].opt \in {"none", "list"}
+         /\ \A k \in 1..Len(m.fields) : m.fields[k].oneof = 1 /\ m.fields[k].kind \in {"message", "wkt"}
+\* buildObjectSchema reads the psm option (names M0.. have no Keys/State/Event/Data suffix); buildOneofSchema does not
+MsgOutcome(m) == IF m.opt = "psm" /\ ~IsWrapper(m) THEN "errors" ELSE "builds"
 
 (* ---------------- phase "shape" ---------------- *)
 
@@ -274,7 +281,7 @@ AddRecursion(mi, form) ==
                  IN msgs' = [ms EXCEPT ![mi].fields[fi].anns = <<[cls |-> "j5", arm |-> "object", var |-> "flatten", consistent |-> TRUE]>>]
                             \o <<[NewMsg(t, 0, "none") EXCEPT !.fields = <<inner>>]>>
          [] form = "flatclash" ->     \* ... whose field has the JSON name of a field of the parent
-              /\ Len(msgs) < MaxMsgs
+              /\ Len(msgs) < MaxMsgs /\ \A k \in 1..Len(msgs[mi].fields) : msgs[mi].fields[k].name # "clash"
               /\ LET t == Len(msgs) + 1
                      inner == [name |-> "clash", kind |-> "string", ref |-> "", card |-> "single", key |-> "", oneof |-> 0, anns |-> <<>>]
                      ms0 == PutField(mi, "int32", "", "single", "string", "none", "none")
@@ -285,6 +292,7 @@ AddRecursion(mi, form) ==
                  IN msgs' = ms \o <<[NewMsg(t, 0, "none") EXCEPT !.fields = <<inner>>]>>
          [] form = "oneofclash" ->    \* an exposed oneof whose lowerCamel name is the JSON name of a field
               /\ \A k \in 1..Len(msgs[mi].oneofs) : msgs[mi].oneofs[k].name # "foo_bar"
+              /\ \A k \in 1..Len(msgs[mi].fields) : msgs[mi].fields[k].name # "fooBar"
               /\ LET ms0 == PutField(mi, "string", "", "single", "string", "none", "none")
                      ms1 == [ms0 EXCEPT ![mi].fields[Len(ms0[mi].fields)].name = "fooBar"]
                      w == WithOneof(ms1[mi], "foo_bar", "expose")
